@@ -59,6 +59,7 @@ type StallCase struct {
 	Bad     []BadPeer      `json:"bad"`
 	Clients [][]COp        `json:"clients"`
 	NKeys   int            `json:"nkeys"`
+	DiskUs  int            `json:"disk_us,omitempty"` // max virtual latency of a state-changing I/O on the primary
 }
 
 func c15key(client, i int) []byte { return []byte(fmt.Sprintf("c%d/k%02d", client, i)) }
@@ -77,6 +78,10 @@ func runC15(t *testing.T, c StallCase) *kit.Result {
 		sim = simrt.S
 		cl := newReplCluster(c.Cfg, c.PK, c.RK, c.Healthy, c.Link)
 		kit.TagNode(cl.fs, "n1")
+		// Disk operations take (virtual) time: without it a client's whole
+		// burst happens in one instant and no RPC of a peer ever arrives in
+		// the middle of a write.
+		cl.fs.Node("n1").Latency = time.Duration(c.DiskUs) * time.Microsecond
 		fail := func(kind, sig, detail string) {
 			if res.V == nil {
 				res.V = &kit.Violation{Kind: kind, Signature: sig, Detail: detail}
@@ -156,6 +161,19 @@ func runC15(t *testing.T, c StallCase) *kit.Result {
 					for !stopBad && st != nil {
 						if _, err := st.Recv(); err != nil {
 							return
+						}
+					}
+				case "acker":
+					// a diligent peer: reads promptly and acknowledges everything it
+					// received, as a complete replica implementation would
+					conn, st, sid := open()
+					for !stopBad && st != nil {
+						m, err := st.Recv()
+						if err != nil {
+							return
+						}
+						if n := len(m.Entries); n > 0 {
+							conn.Acknowledge(withSID(sid), &pb.Ack{AcknowledgedUpTo: m.Entries[n-1].SequenceNumber})
 						}
 					}
 				case "garbage":
@@ -295,6 +313,18 @@ func runC15(t *testing.T, c StallCase) *kit.Result {
 								m[ci][k] = v
 								bytesWritten += len(v)
 							}
+						}
+					case "burst":
+						// many small writes in a row: more than the primary queues per replica
+						for j := 0; j < op.N && err == nil; j++ {
+							v := kit.MakeValue(op.Tag+uint32(j), 6)
+							k := c15key(ci, (op.Key+j)%c.NKeys)
+							err = cl.pe.Put(k, v)
+							if err == nil {
+								m[ci][string(k)] = v
+								bytesWritten += len(v)
+							}
+							cs[ci].since = simrt.NowUnstalled()
 						}
 					case "flush":
 						if e := cl.pe.FlushImMemTables(); e != nil {
@@ -439,6 +469,7 @@ func TestC15(t *testing.T) {
 			// longer than kevo's 3 x 10 ms wait for a log rotation makes a write
 			// fail with "WAL is rotating" with or without replicas attached.
 			c.Sched.TimePassP = 0
+			c.DiskUs = kit.PickOf(r, 0, 50, 300, 1000)
 			c.Link.Window = kit.PickOf(r, 64<<10, 64<<10, 256<<10)
 			c.PK.MemTableSize = kit.PickOf(r, int64(16384), 1<<20, 32<<20)
 			c.RK.MemTableSize = kit.PickOf(r, int64(16384), 32<<20)
@@ -449,7 +480,7 @@ func TestC15(t *testing.T) {
 			nb := r.Range(1, 3)
 			for i := 0; i < nb; i++ {
 				c.Bad = append(c.Bad, BadPeer{
-					Kind:    kit.PickOf(r, "noread", "noread", "slowread", "noack", "garbage", "ack-while-stalled", "ack-while-stalled", "abrupt", "storm"),
+					Kind:    kit.PickOf(r, "noread", "noread", "slowread", "noack", "acker", "acker", "garbage", "ack-while-stalled", "ack-while-stalled", "abrupt", "storm"),
 					StartMs: int64(kit.PickOf(r, 0, 0, 50, 700)),
 					ReadMs:  int64(kit.PickOf(r, 100, 1000, 5000)),
 					AfterMs: int64(kit.PickOf(r, 0, 100, 1500)),
@@ -466,7 +497,10 @@ func TestC15(t *testing.T) {
 				for j, n := 0, r.Range(3, maxOps); j < n; j++ {
 					tag++
 					op := COp{Key: r.Intn(c.NKeys), Tag: tag, Len: kit.PickOf(r, 10, 200, 4000, 16000, 16000)}
-					switch r.Pick(10, 3, 1, 2, 2, 1, 3) {
+					switch r.Pick(10, 3, 1, 2, 2, 1, 3, 1) {
+					case 7:
+						op.K, op.N = "burst", r.Range(40, 160)
+						tag += 200
 					case 0:
 						op.K = "put"
 					case 1:
@@ -545,6 +579,6 @@ func TestC15(t *testing.T) {
 			return out
 		},
 		Strip: func(c StallCase) any { d := c; d.Sched = kit.Sched{}; return d },
-		Rule:  "primary with 0-2 healthy replicas and 1-3 misbehaving peers {never reads, reads every 0.1-5 s, reads but never acknowledges, sends nonsense Ack/Nack (max uint64, 0, 2^40, no or unknown session id), Acks/Nacks while not reading, vanishes (connection cut), opens 30 streams in a row} starting 0-700 ms into the run; 1-3 clients each 3-25 (thorough: 3-60) operations on the primary: put/get/delete/transaction/ApplyBatch/flush/pause with values of 10 B-16 KB over 2-8 keys; window 64-256 KB; heartbeat 1 s/3 s (60%) or as drawn; violation = an operation on the primary fails, takes or has been taking > 5 unstalled virtual seconds, a vanished or window-blocked peer is still in Primary.GetReplicaInfo after heartbeat timeout + 2 intervals + 5 s, or a healthy replica does not reach the primary's state within 120 s. non-trivial = >=3 primary operations completed with >=1 misbehaving peer attached",
+		Rule:  "primary with 0-2 healthy replicas and 1-3 misbehaving peers {never reads, reads every 0.1-5 s, reads but never acknowledges, reads and acknowledges everything at once, sends nonsense Ack/Nack (max uint64, 0, 2^40, no or unknown session id), Acks/Nacks while not reading, vanishes (connection cut), opens 30 streams in a row} starting 0-700 ms into the run; 1-3 clients each 3-25 (thorough: 3-60) operations on the primary: put/get/delete/transaction/ApplyBatch/flush/pause/burst of 40-160 small puts with values of 10 B-16 KB over 2-8 keys; window 64-256 KB; primary disk latency 0-1 ms per I/O; heartbeat 1 s/3 s (60%) or as drawn; violation = an operation on the primary fails, takes or has been taking > 5 unstalled virtual seconds, a vanished or window-blocked peer is still in Primary.GetReplicaInfo after heartbeat timeout + 2 intervals + 5 s, or a healthy replica does not reach the primary's state within 120 s. non-trivial = >=3 primary operations completed with >=1 misbehaving peer attached",
 	})
 }
